@@ -107,17 +107,17 @@ let run (path : string) =
           | Some t -> t.age <- t.age + 1
           | None -> Hashtbl.replace tracked id { age = 1; m = n; c = 0; reported = false }
         end else Hashtbl.remove tracked id) !inputs in
-  let live_post (pre_ids : string list) (open_ids : string list) =
-    let index_of id = let rec go i = function [] -> -1 | x :: r -> if x = id then i else go (i + 1) r in go 0 pre_ids in
+  let live_post (open_ids : string list) =
     let judge id (t : track) =
       let age = z_of_int t.age and m = z_of_int t.m and c = z_of_int t.c in
-      let kf2 = kf_C09_2 !gen (z_of_int (index_of id)) BinNums.Z0 !batch in
+      (* no known class covers a position that outlives the proved bound (C09-F2, the V2 offset
+         overwritten by the borrow sweep, is repaired) *)
       if not (holds_C09_live age m c !batch) then
-        predfail ~case:!case ~step:!step ~pred:"holds_C09_live" ~kf:(if kf2 then "kf_C09_2" else "none")
+        predfail ~case:!case ~step:!step ~pred:"holds_C09_live" ~kf:"none"
           ~detail:(Printf.sprintf "id=%s_unsafe_for_%d_blocks_bound=%s" id t.age (zs (live_bound m c !batch)));
       if BinInt.Z.gtb age (two_sweeps m !batch) && not t.reported then begin
         t.reported <- true;
-        let kf = if kf2 then "kf_C09_2" else if kf_C09_1 age m c !batch then "kf_C09_1" else "none" in
+        let kf = if kf_C09_1 age m c !batch then "kf_C09_1" else "none" in
         predfail ~case:!case ~step:!step ~pred:"two_full_sweeps" ~kf
           ~detail:(Printf.sprintf "id=%s_not_seized_within_%s_blocks_(n=%d_batch=%s)_age=%d" id (zs (two_sweeps m !batch)) t.m (zs !batch) t.age)
       end in
@@ -203,12 +203,15 @@ let run (path : string) =
             | Base.Err _ -> expect_class "err" res
             | Base.Panic -> expect_class "panic" res; bump "block:panic")
          | _ ->
+           (* liquidationsV2.Liquidate: vault sweep under offset key 0, borrow sweep under key 1 (the
+              harness populations hold no lend borrows) *)
+           let one = z_of_int 1 in
            (match sweep_v2 capf !batch { t_list = poss; t_counter = !m_counter; t_off0 = get_off !m_offs BinNums.Z0;
-                                         t_borrows = [] } with
-            | Base.Ok (((seized, _), st'), _) ->
+                                         t_borrows = []; t_off1 = get_off !m_offs one } with
+            | Base.Ok ((seized, _), st') ->
               expect_class "ok" res;
               m_ids := L.map (fun p -> p.p_id) st'.t_list; m_counter := st'.t_counter;
-              m_offs := set_off !m_offs BinNums.Z0 st'.t_off0;
+              m_offs := set_off (set_off !m_offs BinNums.Z0 st'.t_off0) one st'.t_off1;
               pending_seized := L.map zs seized
             | Base.Err _ -> expect_class "err" res
             | Base.Panic -> expect_class "panic" res; bump "block:panic"));
@@ -256,7 +259,7 @@ let run (path : string) =
                           (L.length amts));
            if Z.sub p.nauc q.nauc <> Z.of_int (L.length gone) then
              predfail ~case:!case ~step:!step ~pred:"holds_C09_handover" ~kf:"none" ~detail:"auction_records_delta";
-           if !last_op = "block" then live_post q.ids p.ids
+           if !last_op = "block" then live_post p.ids
          | _ -> ());
         prev := Some p
       | "h" :: k :: rest when !last_op = "block" || !last_op = "liq" ->
